@@ -472,7 +472,7 @@ func propC14(r *Run, w *World) {
 			sysTerm = strings.TrimSuffix(sum[i+3:], ")")
 		}
 		for i, p := range ps {
-			ret := p.Return()
+			ret := p.Ret()
 			if ret == nil {
 				continue
 			}
@@ -541,7 +541,7 @@ func propC14(r *Run, w *World) {
 		// the loop covers the whole split: a forward range, left only at the end (or by returning an error)
 		for i, p := range ps {
 			if p.End == "return" {
-				r.Check(!isNilConst(p.Return().Results[0]), fmt.Sprintf("%s iteration#%d leaves by error", fnName(set), i), set.Pos(), "", "Set returns success from inside the loop (the remaining elements are ignored)")
+				r.Check(!isNilConst(p.Ret().Results[0]), fmt.Sprintf("%s iteration#%d leaves by error", fnName(set), i), set.Pos(), "", "Set returns success from inside the loop (the remaining elements are ignored)")
 			}
 		}
 	}
